@@ -190,6 +190,22 @@ func genC15(g *Rng, tier string, emit func(Op)) {
 			}
 		}
 	}
+	// the integers in order: a proof with range statements on several hidden attributes contributes
+	// their commitments in ascending attribute order, on the prover's and on the verifier's side, every time
+	{
+		kp := fixedKey("k1024a", false)
+		emit(declSk(kp))
+		secret := randSecret(g)
+		for _, idxs := range [][]int{{1, 2}, {4, 3, 2, 1}, {2, 4}} {
+			var stmts []any
+			for j, idx := range idxs {
+				v := g.bits(50)
+				stmts = append(stmts, []any{hxi(int64(idx)), hx(v), hxi(1), hxi(1), hx(new(big.Int).Sub(v, bi(int64(3+j)))), hxi(0)})
+			}
+			emit(Op{"op": "rp-complete-multi", "class": "range-commitments-in-attribute-order", "label": "ok", "nomodel": true, "fkey": "C15/contribution-order",
+				"key": kp.id, "secret": hx(secret), "nattr": 4, "stmts": stmts, "disclosed": intsAny(nil), "reps": 12})
+		}
+	}
 	// content-length boundaries (bytes): 127/128/255/256/65535
 	lenBounds := []int{0, 1, 7, 8, 126 * 8, 127 * 8, 128 * 8, 255 * 8, 256 * 8, 257 * 8}
 	// fixed corpus first
